@@ -118,6 +118,25 @@ def stepNet (n : Net) (now : Int) : Ev → Net
 
 abbrev EvHist := List (Int × Ev)
 
+/-- The rejected ordering (seeded regression C13g-2): the service-bit test is made in `handleAddPeerMsg`, next to the
+other admission rules, instead of in `OnVersion`; `svc p` is what `sp.Services()` answers once the peer's version
+message is in.  `handleAddPeerMsg` is only reached through verack -> AddPeer, and returns early for a peer that is no
+longer connected. -/
+def stepNetDeferred (svc : Peer → Nat) (n : Net) (now : Int) : Ev → Net
+  | .version _ _ => n
+  | .addPeer p =>
+    if p ∈ n.pending then
+      if hasRequired (svc p) then stepNet n now (.addPeer p)
+      else
+        let n' := banPeer n now p reasonNoCompactFilters
+        { n' with pending := without n'.pending p }
+    else n
+  | e => stepNet n now e
+
+def runNetDeferred (svc : Peer → Nat) (n : Net) : EvHist → Net
+  | [] => n
+  | (t, e) :: rest => runNetDeferred svc (stepNetDeferred svc n t e) rest
+
 def runNet (n : Net) : EvHist → Net
   | [] => n
   | (t, e) :: rest => runNet (stepNet n t e) rest
